@@ -80,6 +80,14 @@ class MgrProp(core.Prop):
                                    max_ops=rng.randint(40, 80) if long else rng.randint(2, 14),
                                    episodes=rng.randint(3, 6) if long else rng.randint(1, 3))
             yield self._case(kind, shuffle, script, tape, sess)
+        # what the small scopes never reach: several hundred agents (more than 256) ending through per-agent done flags
+        for kind in ((0, 1) if quick else (0, 1, 2, 0)):
+            n = rng.randint(257, 262)
+            script = {"n": n, "learning": [True] * n, "doneAt": [rng.choice([1, 2]) for _ in range(n)],
+                      "finishAt": 1000000, "noms": [], "plainIds": rng.random() < 0.5}
+            sess = mgr.gen_history(rng, kind, False, script, [], max_ops=6 if kind == 0 else 40, episodes=2, p_bad=0.0,
+                                   p_reset=0.0)
+            yield self._case(kind, False, script, [], sess)
         # the packaged examples that are modelled: real managers over real example objects ...
         yield from p_examples.gen_mgr_cases(rng, 260 if quick else 6000)
         if self.pid == "C01":
